@@ -677,7 +677,15 @@ pub fn determinism_precheck(p: &HistProp, seed: u64, tier: Tier, runs: u64) -> R
 }
 
 /// `fpsim check <prop> <tier>`; returns the process exit code.
-pub fn check(p: &HistProp, tier: Tier, extra: impl FnOnce(&mut Map<String, Value>)) -> i32 {
+/// Result of an additional pass a property may run after its history pass.
+pub struct PostPass {
+    pub exit: i32,
+    pub violations: u64,
+    pub name: &'static str,
+    pub evidence: Map<String, Value>,
+}
+
+pub fn check(p: &HistProp, tier: Tier, post: Option<&dyn Fn(u64, Tier) -> Result<PostPass, String>>) -> i32 {
     let timer = coord::Timer::start();
     let seed = coord::seed_from_env();
     println!("VERIF_SEED={seed} property={} tier={}", p.id, tier.name());
@@ -819,7 +827,23 @@ pub fn check(p: &HistProp, tier: Tier, extra: impl FnOnce(&mut Map<String, Value
     if let Some(pth) = &replay_path {
         extra_map.insert("replay".into(), json!(pth.display().to_string()));
     }
-    extra(&mut extra_map);
+    if let Some(post) = post {
+        if exit == 0 {
+            match post(seed, tier) {
+                Ok(pp) => {
+                    extra_map.insert(pp.name.into(), Value::Object(pp.evidence));
+                    if pp.exit != 0 {
+                        exit = pp.exit;
+                        violations += pp.violations;
+                    }
+                }
+                Err(e) => {
+                    eprintln!("harness error: {e}");
+                    return 2;
+                }
+            }
+        }
+    }
     let distinct = red.distinct.len() as u64;
     if let Err(e) = coord::write_evidence(coord::EvidenceInput {
         prop: p.id,
